@@ -64,6 +64,7 @@ from c13_corpus import corpus, FULL_CERT
 from c14_lib import (COQ_HEADER, call_encodable, encodable, env_term, offset_of, pos_of, rtok_term, tcase_term, token_at)
 from lib import known_for
 import c14_gen4 as g4
+import c14_json5 as j5
 
 PROP = "C14"
 RUNNER = VERIF / "harness" / "c14_run.py"
@@ -847,7 +848,7 @@ def main(tier: str) -> int:
         "Run/C14.v (UTF-8 decoding, comparison)",
         "str.isprintable / unicodedata tables are taken from the interpreter running the harness",
     ]
-    ck.proof(extra_targets=["Run/C14.vo"])
+    ck.proof(extra_targets=["Run/C14.vo", "Run/C14Json.vo"])
     rng = ck.rng
 
     # ---- corpus in three layouts, traced
@@ -1366,6 +1367,84 @@ def main(tier: str) -> int:
         ck.violation(dict(kind="corpus-ineffective", sign_splits=len(splits),
                           note="fewer than 20 distinct glued signed keyword arguments were recorded"), no_input=True)
 
+
+    # ---- (J) strengthening round 5: JSON syntax errors (exception.JMCDecodeJSONError has its own position arithmetic)
+    jplants = j5.json_plants(rng, tier)
+    if tier == "quick":
+        jfirst = [p for p in jplants if p["err_line"] == 1 and p["n_lines"] > 1]
+        jrest = [p for p in jplants if not (p["err_line"] == 1 and p["n_lines"] > 1)]
+        jplants = jfirst + rng.sample(jrest, min(len(jrest), 350))
+    jres = run_jobs([dict(src=p["src"], cert=FULL_CERT, timeout=10) for p in jplants])
+    jn = dict(total=len(jplants), json_diagnostic=0, at_planted_position=0, first_line_of_multiline_brace_not_col1=0, later_line=0, one_line=0,
+              first_line_brace_col1=0)
+    j_by_carrier, j_by_error, reportedJ = {}, {}, 0
+    for p, r in zip(jplants, jres):
+        if r["exc"] != "JMCDecodeJSONError":
+            continue
+        jn["json_diagnostic"] += 1
+        j_by_carrier[p["carrier"]] = j_by_carrier.get(p["carrier"], 0) + 1
+        j_by_error[p["error"]] = j_by_error.get(p["error"], 0) + 1
+        cls = "one_line" if p["n_lines"] == 1 else "later_line" if p["err_line"] > 1 else \
+            "first_line_brace_col1" if p["brace_col"] == 1 else "first_line_of_multiline_brace_not_col1"
+        jn[cls] += 1
+        if r["cited"] and tuple(r["cited"]) == (p["line"], p["col"]):
+            jn["at_planted_position"] += 1
+        elif reportedJ < 3:
+            reportedJ += 1
+            ck.violation(dict(kind="diagnostic-cites-wrong-position", check="J", program=p["src"], header=None, carrier=p["carrier"],
+                              json_layout=p["inner"], error_kind=p["error"], error_on_line_of_the_json_text=p["err_line"], brace_col=p["brace_col"],
+                              expected=dict(line=p["line"], col=p["col"], what="the file position of the offset where json.loads (run by the harness "
+                                            "on the planted text) stops: offset of the text in the file + that offset"),
+                              actual=dict(cited=r["cited"], message=r["msg"][:300]), theorem="C14_json_error_position"))
+    if jn["json_diagnostic"] < 0.8 * len(jplants) or jn["first_line_of_multiline_brace_not_col1"] < 60 or jn["later_line"] < 60 \
+            or jn["one_line"] < 20 or jn["first_line_brace_col1"] < 10 or len(j_by_carrier) < len(j5.NEW_CARRIERS) + len(j5.ARG_CARRIERS):
+        ck.violation(dict(kind="plants-ineffective", json_plants=jn, by_carrier=j_by_carrier,
+                          note="the JSON syntax-error plants no longer reach JMCDecodeJSONError in every carrier / on every line class"), no_input=True)
+    # tie: EVERY JMCDecodeJSONError constructed in any compile of this run == Model.TokJson.json_cite; and, where json was given the
+    # token's own text and that text occurs once in the file, == the file position of json's offset (computed here)
+    jcases, seen_j, reportedJ2, j_records, j_unique = [], set(), 0, 0, 0
+    for p_, r in all_runs + [(dict(src=p["src"], header=None), r) for p, r in zip(jplants, jres)]:
+        for je in r.get("json_errs", []):
+            j_records += 1
+            tok = je["token"]
+            if je["cited"] is None or je["cited"][1] is None:
+                if reportedJ2 < 3:
+                    reportedJ2 += 1
+                    ck.violation(dict(kind="diagnostic-sentence-not-found", check="J", program=p_["src"], header=p_.get("header"), message=je["msg"][:300],
+                                      expected="JMCDecodeJSONError writes `<json message> at line L col C.`"))
+                continue
+            fs_ = r["file_strings"][je["fs"]] if je.get("fs") is not None and je["fs"] < len(r["file_strings"]) else None
+            if fs_ is not None and je["doc_is_token"] and not je["macros"] and p_.get("header") is None and not SUBSTITUTES.search(fs_) \
+                    and fs_.count(tok[3]) == 1:
+                j_unique += 1
+                exp = pos_of(fs_, fs_.index(tok[3]) + je["pos"])
+                if tuple(je["cited"]) != exp and reportedJ2 < 3:
+                    reportedJ2 += 1
+                    ck.violation(dict(kind="diagnostic-cites-wrong-position", check="J2", program=p_["src"], header=None, token=tok[:3],
+                                      json_error=dict(lineno=je["lineno"], colno=je["colno"], pos=je["pos"]),
+                                      expected=dict(zip(("line", "col"), exp), what="file position of the offset json.loads reported inside the token's text"),
+                                      actual=dict(cited=je["cited"])))
+            key = (tok[1], tok[2], je["lineno"], je["colno"], je["cited"][0], je["cited"][1])
+            if key not in seen_j:
+                seen_j.add(key)
+                jcases.append((p_, je, key))
+    jterms = ["JC " + " ".join(coq_z(x) for x in key) for _, _, key in jcases]
+    jbad, jerrs = eval_cases(PROP, "From Coq Require Import ZArith List.\nFrom JMCV Require Import Run.Common Run.C14Json.\nImport ListNotations.\n"
+                             "Open Scope Z_scope.\n", jterms, per_file=400, checker="jmismatches", prefix="json")
+    for e_ in jerrs:
+        ck.violation(dict(kind="correspondence-file-failed", log=e_), no_input=True)
+    for i in jbad[:3]:
+        p_, je, key = jcases[i]
+        ck.violation(dict(kind="model-differs-from-exception", check="J", program=p_["src"], header=p_.get("header"), token=je["token"][:3],
+                          json_error=dict(lineno=je["lineno"], colno=je["colno"]), cited=je["cited"],
+                          expected="Model.TokJson.json_cite: line = token.line + lineno - 1; col = token.col + colno - 1 on the token's first line, else colno",
+                          theorem="C14_json_error_position no longer speaks about the code"))
+    if len(jcases) < 100:
+        ck.violation(dict(kind="corpus-ineffective", json_error_constructions=len(jcases),
+                          note="fewer than 100 distinct JMCDecodeJSONError constructions were recorded"), no_input=True)
+    ck.cov.update(dict(json_error_plants=dict(jn, by_carrier=j_by_carrier, by_error_kind=j_by_error),
+                       json_error_constructions=dict(recorded=j_records, distinct_compared_with_model=len(jcases), token_text_unique_in_file=j_unique)))
+
     kinds = {}
     for _, c, k in calls:
         kinds[k] = kinds.get(k, 0) + 1
@@ -1415,6 +1494,15 @@ def replay(path: str) -> int:
         print("expected: line %(line)s col %(col)s" % rp["expected"])
         print("actual  :", r["exc"], r["cited"])
         return 0 if r["cited"] and tuple(r["cited"]) == (rp["expected"]["line"], rp["expected"]["col"]) else 1
+    if rp.get("check") == "J":
+        # JMCDecodeJSONError constructions of this compile against the arithmetic of Model.TokJson.json_cite, redone here
+        n_bad = 0
+        for je in r.get("json_errs", []):
+            tl, tc = je["token"][1:3]
+            exp = [tl + je["lineno"] - 1, tc + je["colno"] - 1 if je["lineno"] == 1 else je["colno"]]
+            print("token at", (tl, tc), "json error at", (je["lineno"], je["colno"]), "expected", exp, "actual", je["cited"])
+            n_bad += je["cited"] != exp
+        return 1 if n_bad else 0
     if rp.get("check") == "X":
         # untrusted re-scan of the file text: a literal runs from its opening quote to the next unescaped occurrence of that quote
         n_bad = 0
